@@ -95,11 +95,13 @@ type source struct {
 	requests []model.Hash
 	fateLog  []string
 	probe    func(bitcoin.Hash32) string // diagnostic: state of the manager at request time
+	cancelDelay time.Duration           // how long the node takes to answer a cancel
 	hold     chan struct{} // when non-nil, served blocks wait for it (to keep a request pending)
 	wg       sync.WaitGroup
 }
 
 type canceller struct {
+	delay     time.Duration
 	id        uuid.UUID
 	mu        sync.Mutex
 	started   bool
@@ -110,6 +112,9 @@ type canceller struct {
 
 func (c *canceller) ID() uuid.UUID { return c.id }
 func (c *canceller) CancelBlockRequest(ctx context.Context, h bitcoin.Hash32) bool {
+	if c.delay > 0 {
+		time.Sleep(c.delay) // a node that is slow to answer the cancel (it takes its own lock there)
+	}
 	c.mu.Lock()
 	defer c.mu.Unlock()
 	c.cancelled = true
@@ -158,7 +163,7 @@ func (s *source) RequestBlock(ctx context.Context, hash bitcoin.Hash32, handler 
 	if b == nil {
 		return nil, fmt.Errorf("unknown block requested")
 	}
-	c := &canceller{id: uuid.New(), ch: make(chan *wire.MsgTx)}
+	c := &canceller{id: uuid.New(), ch: make(chan *wire.MsgTx), delay: s.cancelDelay}
 	s.wg.Add(1)
 	go func() {
 		defer s.wg.Done()
@@ -514,6 +519,65 @@ func TestProp_C05_trigger(t *testing.T) {
 		k.NonTrivial = true
 		k.Done()
 	})
+}
+
+// TestRegr_C05_slow_abort: a pending block leaves the best chain and the abort takes longer than
+// the reader's 10-second orphan check (the node is slow to answer the cancel; on an overloaded
+// machine the same happened without any scripted delay): the second check found the block still
+// orphaned and closed the abort channel again => "panic: close of closed channel" in the
+// synchronisation goroutine (process exit). Repaired by "fix: abort an orphaned block only once".
+func TestRegr_C05_slow_abort(t *testing.T) {
+	t.Parallel()
+	ctx := vt.Ctx()
+	rt := fatal{t.Fatalf}
+	_ = rt
+	w := newWorld()
+	var chain []*blk
+	rapid.Check(t, func(q *rapid.T) { // (world helpers take a rapid.T; nothing is drawn here)
+		if chain == nil {
+			chain = w.extend(q, genesis, 0, 2, 0x1d00ffff)
+		}
+	})
+	r := newRig(w, 1, nil)
+	defer r.close()
+	hold := make(chan struct{})
+	r.src.mu.Lock()
+	r.src.hold = hold
+	r.src.cancelDelay = 12 * time.Second
+	r.src.mu.Unlock()
+	done := make(chan error, 1)
+	go func() { done <- r.nm.VerifSynchronizeBlocks(ctx, r.stop) }()
+	// wait for the request for block 1, then replace the whole chain by a heavier branch
+	deadline := time.Now().Add(10 * time.Second)
+	for {
+		r.src.mu.Lock()
+		n := len(r.src.requests)
+		r.src.mu.Unlock()
+		if n > 0 {
+			break
+		}
+		if time.Now().After(deadline) {
+			t.Fatalf("no block request")
+		}
+		time.Sleep(time.Millisecond)
+	}
+	rapid.Check(t, func(q *rapid.T) {
+		if len(chain) == 2 {
+			chain = append(chain, w.extend(q, genesis, 0, 3, 0x1c00ffff)...)
+		}
+	})
+	select {
+	case err := <-done:
+		if err != nil {
+			t.Fatalf("round: %s", err)
+		}
+	case <-time.After(40 * time.Second):
+		t.Fatalf("the round did not end within 40 s after the pending block left the best chain")
+	}
+	close(hold)
+	if got := r.processedOrder(); len(got) != 0 {
+		t.Fatalf("orphaned block processed: %v", got)
+	}
 }
 
 const ruleRecover = "the production trigger path as in the trigger leg, with the application's processed-block lookup (BlockTxManager.FetchBlockTxIDs) failing ONCE at a drawn call during the first round (the round ends with an error), block-source failures drawn as in the round leg; after the failure new best-chain headers arrive and TriggerBlockSynchronize is called again (1..3 times); oracle at quiescence: every best-chain block from the start height to the final tip was processed exactly once in strictly ascending contiguous order - a failed round must not prevent later rounds; non-trivial = the lookup failure hit (the first round ended early); distinct = (length, start, failing call, batches, fates)"
